@@ -482,3 +482,182 @@ Proof.
           rewrite skipn_app, Nat.add_0_r, skipn_all, Nat.sub_diag. reflexivity. }
       rewrite Ecut. exact Hr.
 Qed.
+
+(* ---- skipping a block of fields ------------------------------------------------------------------------ *)
+Definition gf0 (e : elem) : Prop := sepfree e /\ nonzero e /\ e <> [].
+
+Fixpoint track (p L : nat) (X : list elem) : nat :=
+  match X with
+  | [] => L
+  | e :: X' => track (p + length e + 1) (if isname e then p else L) X'
+  end.
+
+Fixpoint nofire (Tl p L : nat) (X : list elem) : Prop :=
+  match X with
+  | [] => True
+  | e :: X' => ~ (e = DD /\ (L < Tl)%nat /\ (2 <= p)%nat) /\
+               nofire Tl (p + length e + 1) (if isname e then p else L) X'
+  end.
+
+Lemma body_cons : forall e X, body (e :: X) = e ++ SEP :: body X.
+Proof. intros. unfold body. cbn [map concat]. rewrite <- app_assoc. reflexivity. Qed.
+
+Lemma body_length_cons : forall e X, length (body (e :: X)) = (length e + 1 + length (body X))%nat.
+Proof. intros. rewrite body_cons, app_length. cbn [length]. lia. Qed.
+
+Lemma skip_block : forall X pre rest T last next r,
+  T = pre ++ body X ++ rest ->
+  Forall gf0 X -> (pre = [] \/ exists p', pre = p' ++ [SEP]) -> (pre = [] -> next = 0%nat) ->
+  nofire (length T) (length pre) last X ->
+  (forall nx, (pre ++ body X = [] -> nx = 0%nat) ->
+              dd_res (length pre + length (body X)) T (track (length pre) last X) nx r) ->
+  dd_res (length pre) T last next r.
+Proof.
+  induction X as [|e X IH]; intros pre rest T last next r ET HX Hpre Hnext Hnf Hr.
+  - cbn in Hr. rewrite Nat.add_0_r in Hr. apply Hr. rewrite app_nil_r. exact Hnext.
+  - pose proof (Forall_inv HX) as (Hs & Hz & Hn). pose proof (Forall_inv_tail HX) as HX'.
+    cbn [nofire track] in *. destruct Hnf as [Hnf1 Hnf2].
+    assert (ET1 : T = pre ++ e ++ SEP :: (body X ++ rest)).
+    { rewrite ET, body_cons. rewrite <- !app_assoc. reflexivity. }
+    rewrite ET1. apply skip1; try assumption.
+    + rewrite <- ET1. exact Hnf1.
+    + intros nx. rewrite <- ET1.
+      assert (EL : length (pre ++ e ++ [SEP]) = (length pre + length e + 1)%nat)
+        by (rewrite !app_length; cbn [length]; lia).
+      apply (IH (pre ++ e ++ [SEP]) rest T _ nx r).
+      * rewrite ET1. rewrite <- !app_assoc. reflexivity.
+      * exact HX'.
+      * right. exists (pre ++ e). rewrite <- app_assoc. reflexivity.
+      * intro A. destruct pre; destruct e; discriminate.
+      * rewrite EL. exact Hnf2.
+      * intros nx' _. rewrite EL. specialize (Hr nx'). rewrite body_length_cons in Hr.
+        replace (length pre + length e + 1 + length (body X))%nat with (length pre + (length e + 1 + length (body X)))%nat by lia.
+        apply Hr. intro A. rewrite body_cons in A. destruct pre; destruct e; discriminate.
+Qed.
+
+Lemma track_app : forall X Y p L,
+  track p L (X ++ Y) = track (p + length (body X)) (track p L X) Y.
+Proof.
+  induction X as [|e X IH]; intros Y p L; [cbn; rewrite Nat.add_0_r; reflexivity|].
+  cbn [app track]. rewrite IH, body_length_cons. f_equal. lia.
+Qed.
+
+Lemma nofire_app : forall X Y Tl p L,
+  nofire Tl p L X -> nofire Tl (p + length (body X)) (track p L X) Y -> nofire Tl p L (X ++ Y).
+Proof.
+  induction X as [|e X IH]; intros Y Tl p L H1 H2; [cbn in *; rewrite Nat.add_0_r in H2; exact H2|].
+  cbn [app nofire track] in *. destruct H1 as [H1 H1']. split; [exact H1|].
+  apply IH; [exact H1'|]. rewrite body_length_cons in H2.
+  replace (p + length e + 1 + length (body X))%nat with (p + (length e + 1 + length (body X)))%nat by lia. exact H2.
+Qed.
+
+Definition allDD (D : list elem) : Prop := Forall (fun e => e = DD) D.
+Definition nm (e : elem) : Prop := gf0 e /\ isname e = true.
+Definition allnm (N : list elem) : Prop := Forall nm N.
+
+Lemma dd_gf0 : gf0 DD.
+Proof. repeat split; try discriminate; repeat constructor; discriminate. Qed.
+
+Lemma nm_not_dd : forall e, nm e -> e <> DD.
+Proof. intros e [_ H] ->. discriminate. Qed.
+
+Lemma track_dds : forall D Tl p L, allDD D -> ~ (L < Tl)%nat -> nofire Tl p L D /\ track p L D = L.
+Proof.
+  induction D as [|e D IH]; intros Tl p L HD HL; [split; [exact I|reflexivity]|].
+  inversion HD; subst. cbn [nofire track]. change (isname DD) with false. cbv iota.
+  destruct (IH Tl (p + length DD + 1)%nat L H2 HL) as [I1 I2]. repeat split; [|exact I1|exact I2].
+  intros (_ & A & _). contradiction.
+Qed.
+
+Lemma nofire_names : forall N Tl p L, allnm N -> nofire Tl p L N.
+Proof.
+  induction N as [|e N IH]; intros Tl p L HN; [exact I|].
+  inversion HN; subst. cbn [nofire]. split; [|apply IH; assumption].
+  intros (A & _). apply (nm_not_dd e H1). exact A.
+Qed.
+
+Lemma track_names_last : forall N n p L, allnm (N ++ [n]) -> track p L (N ++ [n]) = (p + length (body N))%nat.
+Proof.
+  intros N n p L H. rewrite track_app. cbn [track].
+  apply Forall_app in H as [_ H]. inversion H; subst. destruct H2 as [_ Hn]. rewrite Hn. reflexivity.
+Qed.
+
+Lemma allDD_gf0 : forall D, allDD D -> Forall gf0 D.
+Proof. intros D H. eapply Forall_impl; [|exact H]. intros a ->. apply dd_gf0. Qed.
+
+Lemma allnm_gf0 : forall N, allnm N -> Forall gf0 N.
+Proof. intros N H. eapply Forall_impl; [|exact H]. intros a [A _]. exact A. Qed.
+
+(* ---- the text of a field list, and one scan over it ------------------------------------------------- *)
+Definition TX (k : Z) (F : list elem) : list Z := root_acc k ++ join_elems F.
+
+Lemma join_app_body : forall A Y, Y <> [] -> join_elems (A ++ Y) = body A ++ join_elems Y.
+Proof.
+  induction A as [|a A IH]; intros Y HY; [reflexivity|].
+  cbn [app]. destruct (A ++ Y) as [|b rest] eqn:E; [destruct A; [cbn in E; congruence|discriminate]|].
+  change (join_elems (a :: b :: rest)) with (a ++ SEP :: join_elems (b :: rest)).
+  rewrite <- E, IH by exact HY. rewrite body_cons, <- app_assoc. reflexivity.
+Qed.
+
+Lemma pre_body : forall k X, (k = 0 \/ k = 1) ->
+  root_acc k ++ body X = [] \/ exists p', root_acc k ++ body X = p' ++ [SEP].
+Proof.
+  intros k X Hk. destruct X as [|x X'] using rev_ind.
+  - cbn. rewrite app_nil_r. destruct Hk as [-> | ->]; [left; reflexivity|right; exists []; reflexivity].
+  - right. rewrite body_snoc. exists (root_acc k ++ body X' ++ x). rewrite <- !app_assoc. reflexivity.
+Qed.
+
+Lemma dn_snoc : forall D N X' e, allDD D -> allnm N -> D ++ N = X' ++ [e] ->
+  exists D' N', X' = D' ++ N' /\ allDD D' /\ allnm N' /\ ((e = DD /\ N' = []) \/ nm e).
+Proof.
+  intros D N X' e HD HN E. destruct N as [|n N0] using rev_ind.
+  - rewrite app_nil_r in E. subst D. apply Forall_app in HD as [HD' He]. inversion He; subst.
+    exists X', []. rewrite app_nil_r. repeat split; auto; try constructor.
+  - clear IHN0. rewrite app_assoc in E. apply app_inj_tail in E as [<- <-].
+    apply Forall_app in HN as [HN0 Hn]. inversion Hn; subst.
+    exists D, N0. repeat split; auto.
+Qed.
+
+Lemma nofire_dn : forall Tl p D N, allDD D -> allnm N -> nofire Tl p Tl (D ++ N) /\
+  track p Tl (D ++ N) = track (p + length (body D)) Tl N.
+Proof.
+  intros Tl p D N HD HN. destruct (track_dds D Tl p Tl HD ltac:(lia)) as [A1 A2]. split.
+  - apply nofire_app; [exact A1|]. apply nofire_names. exact HN.
+  - rewrite track_app, A2. reflexivity.
+Qed.
+
+Lemma scan_nocancel : forall k D N tl, (k = 0 \/ k = 1) -> allDD D -> allnm N -> (tl = [] \/ tl = [[]]) ->
+  dd_res (length (root_acc k)) (TX k (D ++ N ++ tl)) (length (TX k (D ++ N ++ tl))) 0 (TX k (D ++ N ++ tl)).
+Proof.
+  intros k D N tl Hk HD HN Htl.
+  assert (Hroot : root_acc k = [] \/ exists p', root_acc k = p' ++ [SEP]).
+  { destruct Hk as [-> | ->]; [left; reflexivity|right; exists []; reflexivity]. }
+  destruct Htl as [-> | ->].
+  - rewrite app_nil_r. destruct (D ++ N) as [|a0 l0] eqn:EX.
+    + apply dd_res_exit. unfold TX. cbn. rewrite app_nil_r. lia.
+    + destruct (exists_last (l := a0 :: l0) ltac:(discriminate)) as (X' & e & EX'). rewrite EX' in *. clear EX' a0 l0.
+      destruct (dn_snoc D N X' e HD HN EX) as (D' & N' & -> & HD' & HN' & He).
+      set (T := TX k ((D' ++ N') ++ [e])).
+      assert (ET : T = root_acc k ++ body (D' ++ N') ++ e) by (unfold T, TX; rewrite join_snoc; reflexivity).
+      destruct (nofire_dn (length T) (length (root_acc k)) D' N' HD' HN') as [NF TR].
+      assert (Hge : gf0 e) by (destruct He as [[-> _] | [A _]]; [apply dd_gf0|exact A]).
+      destruct Hge as (Hs & Hz & Hne).
+      apply (skip_block (D' ++ N') (root_acc k) e T _ 0%nat T ET); auto.
+      * apply Forall_app. split; [apply allDD_gf0|apply allnm_gf0]; assumption.
+      * intros nx Hnx.
+        replace (length (root_acc k) + length (body (D' ++ N')))%nat with (length (root_acc k ++ body (D' ++ N')))
+          by apply app_length.
+        assert (ET2 : T = (root_acc k ++ body (D' ++ N')) ++ e) by (rewrite ET, <- app_assoc; reflexivity).
+        rewrite ET2 at 1 3. apply skip_last; auto; [apply pre_body; exact Hk|].
+        intros (Ed & A & _). rewrite <- ET2 in A. destruct He as [[_ ->] | Hnm].
+        -- rewrite app_nil_r in *. destruct (track_dds D' (length T) (length (root_acc k)) (length T) HD' ltac:(lia)) as [_ TD].
+           rewrite TD in A. lia.
+        -- apply (nm_not_dd e Hnm Ed).
+  - set (T := TX k (D ++ N ++ [[]])).
+    assert (ET : T = root_acc k ++ body (D ++ N) ++ []).
+    { unfold T, TX. rewrite app_assoc, join_snoc. reflexivity. }
+    destruct (nofire_dn (length T) (length (root_acc k)) D N HD HN) as [NF TR].
+    apply (skip_block (D ++ N) (root_acc k) [] T _ 0%nat T ET); auto.
+    + apply Forall_app. split; [apply allDD_gf0|apply allnm_gf0]; assumption.
+    + intros nx _. apply dd_res_exit. rewrite ET, !app_length. cbn [length]. lia.
+Qed.
